@@ -38,16 +38,19 @@ func (n *NoLossStrategy) Compute(snapshots <-chan *asset.Snapshot) <-chan strate
 	innerActions := n.InnertStrategy.Compute(snapshotsSplice[0])
 	closings := asset.SnapshotsAsClosings(snapshotsSplice[1])
 	boughtAt := 0.0
+	bought := false
 
 	return helper.Operate(innerActions, closings, func(action strategy.Action, closing float64) strategy.Action {
 		// If action is Buy and the asset is not yet bought, buy it as recommended.
-		if action == strategy.Buy && boughtAt == 0.0 {
+		if action == strategy.Buy && !bought {
+			bought = true
 			boughtAt = closing
 			return strategy.Buy
 		}
 
 		// If the action is sell and the asset was bought at a lower amount, sell it as recommended.
-		if action == strategy.Sell && boughtAt != 0.0 && boughtAt < closing {
+		if action == strategy.Sell && bought && boughtAt < closing {
+			bought = false
 			boughtAt = 0.0
 			return strategy.Sell
 		}
